@@ -46,6 +46,42 @@ def dline(jid, name, level, mode, win, seed, nev, plans=None, tplan=None, nme=No
     return s
 
 
+def cascade_jobs(S, rng, modes_per_level=1, suffix=""):
+    """one D job per cascade path of every (isotope, level): -> [(line, meta)]"""
+    tab = S.tab["table"]
+    low = S.tab["low"]
+    chains = S.tab["chains"]["dbd"]
+    out = []
+    n = 0
+    for ent in tab:
+        nm = ent["name"]
+        for il, lv in enumerate(ent["levels"]):
+            if nm in chains and len(chains[nm]) > 1:
+                keys = [S.by_lower.get(c["call"].lower() + "@0") or S.key_of_call(c["call"]) for c in chains[nm]]
+            elif nm in low and (low[nm].lower() + "@%d" % lv["E"]) in S.by_lower:
+                keys = [S.by_lower[low[nm].lower() + "@%d" % lv["E"]]]
+            else:
+                keys = []
+            modes = [1, 4] if lv["spin"] == 0 else [7, 8] if lv["spin"] == 2 else [3]
+            if float(ent["Z"]) < 0:
+                modes = [12] + modes[:1]
+            modes = modes[:modes_per_level]
+            for ki, key in enumerate(keys):
+                if key not in S.data:
+                    continue
+                paths = S.all_paths(key)
+                if len(paths) <= 1 and ki == 0 and len(keys) == 1 and lv["E"] == 0:
+                    continue
+                for p in paths:
+                    for m in modes:
+                        n += 1
+                        plans = [[] for _ in range(ki)] + [S.plan(key, p)]
+                        jid = "%s.%d.%d.p%d" % (nm, il, m, n)
+                        line = dline(jid, nm, il, m, None, rng.randrange(1, 2 ** 31), 1, plans=plans) + suffix
+                        out.append((line, {"kind": "cascade-path", "iso": nm, "level": il, "mode": m, "sig": S.path_sig(key, p), "id": jid}))
+    return out
+
+
 def run_shard(exe, lines, wd, i):
     rc, out = vlib.sh([exe, "--sch-trace", os.path.join(wd, "sch%d.ndjson" % i), "--bb-trace", os.path.join(wd, "bb%d.ndjson" % i)],
                       input="\n".join(lines) + "\n", timeout=2400, env=vlib.harness_env("plain"))
